@@ -373,3 +373,98 @@ def lemma_insert_numbers_without_holes(reg, repo):
 
 
 LEMMAS["insert_numbers_without_holes"] = lemma_insert_numbers_without_holes
+
+
+# ----------------------------------------------------------------------------------------------------------------------
+# transform.substitute_terminals: one step (the body of `for terminal_num in sorted(...)`), same extraction as above:
+# the table lookup is an opaque pair (word, tag-or-None).  An index outside 1..n is ignored (also under `quiet`); an
+# index inside replaces the word of exactly that token, and its tag when the file gives one; nothing else changes.
+# ----------------------------------------------------------------------------------------------------------------------
+def lemma_substitute_step(reg, repo):
+    import ast
+    import copy
+    from pyvc.core import Exec, State
+    from pyvc.heap import Heap
+    from pyvc.sym import VTuple, VOpt, Unsupported
+    from contracts.common import terms_facts
+    add_common(reg)
+    qual = "trees.transform.substitute_terminals"
+    info = repo.fns.get(qual)
+    if info is None:
+        raise Unsupported("function %s no longer exists" % qual)
+    loop = None
+    for node in ast.walk(info.node):
+        if isinstance(node, ast.For) and ast.unparse(node.target) == "terminal_num":
+            loop = node
+    if loop is None:
+        raise Unsupported("the substitution loop of substitute_terminals was not found (the contract no longer binds)")
+    LOOKUP = "substitute_terminals.terminals[tree.data['sid']][terminal_num]"
+    count = [0]
+
+    class Sub(ast.NodeTransformer):
+        def visit_Subscript(self, n):
+            if ast.unparse(n) == LOOKUP:
+                count[0] += 1
+                return ast.copy_location(ast.Name(id="_table_entry", ctx=ast.Load()), n)
+            return self.generic_visit(n)
+    body = [ast.fix_missing_locations(Sub().visit(copy.deepcopy(s))) for s in loop.body]
+    if count[0] != 2:
+        raise Unsupported("expected two table lookups in the substitution step, found %d" % count[0])
+    c = Contract(target=qual, prop="C11", args={}, params={"quiet": BOOL}, loops={})
+    ex = Exec(repo, reg, info, c, prefix="C11.substitute_step")
+    E = Heap.fresh("S")
+    st = State(heap=E.copy())
+    for t in E.typing():
+        st.assume(t)
+    tree = VRef(z3.Int(fresh_name("s_tree")))
+    tnum = VInt(z3.Int(fresh_name("s_terminal_num")))
+    word = VStr(z3.String(fresh_name("s_word")))
+    tag = VOpt(z3.Bool(fresh_name("s_tag_isnone")), VStr(z3.String(fresh_name("s_tag"))))
+    T0 = E.terms(tree)
+    st.env.update(dict(tree=tree, terminal_num=tnum, _table_entry=VTuple([word, tag]), terminals=T0))
+    st.env["params"] = ex._fresh_params(st, "sp")
+    ex.entry_heap = E
+    st.assume(tree.t != 0)
+    st.assume(tobool(WF(E, tree)))
+    st.assume(tobool(wf_theory(E)))
+    st.assume(tobool(terms_facts(E, tree)))
+    ex.obligations = []
+    outs = ex._with_raises(st, ex.exec_block(body, st))
+    vcs = []
+    in_range = z3.And(1 <= tnum.t, tnum.t <= T0.n)
+    target = T0.get(tnum.t - 1).t
+    for oi, o in enumerate(outs):
+        H = o.st.heap
+        if o.kind == "continue":
+            same = z3.And(*[H.f[k] == E.f[k] for k in sorted(E.f)])
+            vcs.append(("path%d.index_outside_1_to_n_is_ignored" % oi, list(o.st.pc), z3.And(z3.Not(in_range), same)))
+            continue
+        if o.kind != "normal":
+            raise Unsupported("the substitution step leaves the loop body by %s" % o.kind)
+        m = z3.Int(fresh_name("sm"))
+        sel = lambda f, r, heap=H: z3.Select(heap.f[f], r)
+        goals = {
+            "only_indices_1_to_n_substitute": in_range,
+            "word_of_exactly_that_token_replaced": z3.And(
+                sel("has_word", target), z3.Not(sel("none_word", target)), sel("val_word", target) == word.t),
+            "tag_replaced_iff_the_file_gives_one": z3.If(
+                tag.isnone,
+                z3.And(sel("val_label", target) == z3.Select(E.f["val_label"], target),
+                       sel("none_label", target) == z3.Select(E.f["none_label"], target),
+                       sel("has_label", target) == z3.Select(E.f["has_label"], target)),
+                z3.And(sel("has_label", target), z3.Not(sel("none_label", target)), sel("val_label", target) == tag.val.t)),
+            "nothing_else_changes": z3.And(*(
+                [H.f[k] == E.f[k] for k in sorted(E.f)
+                 if not k.endswith(("_word", "_label"))] +
+                [z3.ForAll([m], z3.Implies(m != target, z3.Select(H.f[k], m) == z3.Select(E.f[k], m)))
+                 for k in sorted(E.f) if k.endswith(("_word", "_label"))])),
+        }
+        for gname, g in goals.items():
+            vcs.append(("path%d.%s" % (oi, gname), list(o.st.pc), g))
+    for ob in ex.obligations:
+        vcs.append(("step.%s" % ob.name.split(".", 2)[-1], list(ob.pc), ob.goal))
+    return vcs
+
+
+lemma_substitute_step.target = "trees.transform.substitute_terminals"
+LEMMAS["substitute_step"] = lemma_substitute_step
